@@ -3,6 +3,7 @@ package analysis
 import (
 	"fmt"
 	"grog/internal/dag"
+	"grog/internal/label"
 	"grog/internal/model"
 	"strings"
 )
@@ -13,7 +14,14 @@ func BuildGraph(nodes model.BuildNodeMap) (*dag.DirectedTargetGraph, error) {
 
 	// Add edges defined by dependencies
 	for _, node := range nodes {
+		// A dependency that is declared more than once still is a single edge
+		declared := make(map[label.TargetLabel]struct{})
 		for _, depLabel := range node.GetDependencies() {
+			if _, isDuplicate := declared[depLabel]; isDuplicate {
+				continue
+			}
+			declared[depLabel] = struct{}{}
+
 			dep := nodes[depLabel]
 			if dep == nil {
 				return &dag.DirectedTargetGraph{}, fmt.Errorf("dependency %s of node %s not found", depLabel, node.GetLabel())
